@@ -51,6 +51,15 @@ def gen_cases(tier, seed):
         if kind == 'process':
             for acc in ('join', 'result', 'wait'):
                 lst.append({'kind': kind, 'ending': ['terminate'], 'first': acc})
+    # timed accessors used first (the race between the caller's and the collector thread's waitpid)
+    for acc in ('join-t', 'result-t', 'exception-t'):
+        for rep in range(2 if tier == 'quick' else 8):
+            sig.append({'kind': 'process', 'ending': ['signal', 'SIGKILL', 'before'], 'first': acc, 'rep': rep})
+            sig.append({'kind': 'process', 'ending': ['signal', 'SIGKILL', 'during'], 'first': acc, 'rep': rep})
+        prc.append({'kind': 'process', 'ending': ['return', 0], 'first': acc})
+        prc.append({'kind': 'process', 'ending': ['raise', 'ValueError', ['x']], 'first': acc})
+        thr.append({'kind': 'thread', 'ending': ['raise', 'KeyError', ['k']], 'first': acc})
+        thr.append({'kind': 'thread', 'ending': ['return', 'str'], 'first': acc})
     for s in ('SIGTERM', 'SIGKILL', 'SIGSEGV', 'SIGABRT', 'SIGINT'):
         for phase in ('before', 'during', 'after'):
             for acc in ('join', 'exception', 'wait', 'as_completed'):
@@ -67,6 +76,10 @@ def gen_cases(tier, seed):
         thr.append({'kind': 'thread', 'ending': ['return-unpicklable'], 'first': acc})
     for acc in ('join', 'result', 'exitcode'):
         prc.append({'kind': 'process', 'ending': ['no-target'], 'first': acc})
+    # an exception that the child can pickle and the parent cannot rebuild: the type cannot survive, but every accessor must still end, consistently
+    for acc in ('wait', 'as_completed', 'join', 'exception'):
+        prc.append({'kind': 'process', 'ending': ['raise-unrebuildable', 'TwoArgInit', [1, 2]], 'first': acc})
+        thr.append({'kind': 'thread', 'ending': ['raise', 'TwoArgInit', [1, 2]], 'first': acc})
     for acc in ('join', 'result'):
         thr.append({'kind': 'thread', 'ending': ['no-target'], 'first': acc})
     # Thread: accessor used in the instant after start() (the Future must exist already)
@@ -76,10 +89,11 @@ def gen_cases(tier, seed):
     if tier == 'quick':
         rng.shuffle(prc)
         rng.shuffle(sig)
-        must = [c for c in prc if c['ending'][0] in ('return-unpicklable', 'os-exit', 'no-target')]
+        must = [c for c in prc if c['ending'][0] in ('return-unpicklable', 'os-exit', 'no-target', 'raise-unrebuildable')]
         rare = [c for c in sig if c['ending'][1] not in ('SIGTERM', 'SIGKILL', 'SIGSEGV', 'SIGABRT', 'SIGINT')]
-        usual = [c for c in prc if c['ending'][0] not in ('return-unpicklable', 'os-exit', 'no-target')]
-        cases = thr + usual[:70] + must[:6] + [c for c in must[6:] if c['ending'][0] == 'no-target'] + [c for c in sig if c not in rare][:34] + rare[:12]
+        usual = [c for c in prc if c['ending'][0] not in ('return-unpicklable', 'os-exit', 'no-target', 'raise-unrebuildable')]
+        timed = [c for c in prc + sig if c['first'].endswith('-t')]
+        cases = thr + [c for c in usual if c not in timed][:70] + must[:6] + [c for c in must[6:] if c['ending'][0] in ('no-target', 'raise-unrebuildable')] + [c for c in sig if c not in rare and c not in timed][:34] + rare[:12] + timed
     else:
         cases = thr + prc + sig
     rng.shuffle(cases)
@@ -115,7 +129,7 @@ def run_case(case):
     is_proc = kind == 'process'
     ready = mm.Event() if is_proc else None
     spec = list(ending)
-    if ending[0] == 'raise':
+    if ending[0] in ('raise', 'raise-unrebuildable'):
         spec = ['raise', ending[1], _exc_args(ending[1:]), ending[3] if len(ending) > 3 else None]
     if ending[0] == 'terminate':
         spec = ['sleep', 30]
@@ -170,6 +184,13 @@ def run_case(case):
     def access(name):
         def call():
             try:
+                if name == 'join-t':
+                    r = w.join(timeout=BOUND)
+                    return ('ok', r) if w.done() else ('exc', TimeoutError('join(timeout) returned while done() is False'))
+                if name == 'result-t':
+                    return ('ok', w.result(timeout=BOUND))
+                if name == 'exception-t':
+                    return ('ok', w.exception(timeout=BOUND))
                 if name == 'join':
                     return ('ok', w.join())
                 if name == 'result':
@@ -222,6 +243,15 @@ def run_case(case):
         if fz:
             fz.stop()
 
+    # ---- the timed variant used first must agree with its untimed twin (the worker ends well within the timeout)
+    for tname in ('join-t', 'result-t', 'exception-t'):
+        if tname in results and tname[:-2] in results:
+            a, b = results[tname], results[tname[:-2]]
+            same = a[0] == b[0] and (type(a[1]).__name__ == type(b[1]).__name__ if a[0] == 'exc' or isinstance(a[1], BaseException) else norm_exc(a[1]) == norm_exc(b[1]))
+            if not same:
+                mech = 'timed-accessor-times-out-for-ended-worker' if isinstance(a[1], TimeoutError) and not isinstance(b[1], TimeoutError) else 'timed-accessor-disagrees'
+                viol.append({'mech': f'{kind}/{mech}', 'msg': f'ending {ending!r}: {tname[:-2]}(timeout={BOUND}) used first gave {str(a)[:150]}, the untimed call afterwards gave {str(b)[:150]}'})
+
     # ---- consistency table
     def bad(mech, msg):
         viol.append({'mech': f'{kind}/{mech}', 'msg': f'ending {ending!r}, first accessor {case["first"]}: {msg}'})
@@ -247,7 +277,7 @@ def run_case(case):
             expect = ('value', None) if ending[1] in (None, 0) else ('error', 'SystemExit', [ending[1]])
         elif ending[0] == 'return-unpicklable' and not is_proc:
             expect = ('consistent',)  # a thread can return anything
-        elif ending[0] in ('return-unpicklable', 'os-exit'):
+        elif ending[0] in ('return-unpicklable', 'os-exit', 'raise-unrebuildable'):
             expect = ('error', None, None)  # the child could not report: some error, consistently, in bounded time
         elif ending[0] == 'terminate' or (ending[0] == 'signal' and ending[1] == 'SIGTERM' and ending[2] != 'after'):
             expect = ('value', None)
@@ -307,7 +337,7 @@ def run_case(case):
             want = None
             if ending[0] in ('return', 'no-target') or (ending[0] == 'exit' and ending[1] in (None, 0)):
                 want = 0
-            elif ending[0] == 'raise':
+            elif ending[0] in ('raise', 'raise-unrebuildable'):
                 want = 1
             elif ending[0] == 'exit':
                 want = ending[1] if isinstance(ending[1], int) else 1
